@@ -78,9 +78,9 @@ LEVEL_TEXT = ('Machine-checked Coq theorems over all object graphs of the domain
               'JSON TEXT LAYER (round 7): a Gallina printer of the exact bytes json.dump writes with sugar\'s settings (ensure_ascii escapes, ", " and ": " '
               'separators, NaN/Infinity/-Infinity, ints of any size, floats as the literal float.__repr__ produced) and a Gallina scanner of json.load '
               '(white space, all escapes, NUMBER_RE, strict control characters, Extra data) with, for EVERY tree, parse(print t ++ rest) = (t, rest) '
-              '(C14_text_roundtrip, unbounded, nested induction; C14_loads_dumps; the text length is enough fuel), print injective (True / 1 / 1.0 / '
+              '(C14_text_roundtrip, unbounded, nested induction; C14_loads_dumps; the text length is enough fuel; white space around the document does not matter: C14_loads_padded), print injective (True / 1 / 1.0 / '
               '"1" never confused: C14_print_injective), string literals scanned back and printable ASCII (C14_jstring_roundtrip), and THE ROUND TRIP '
-              'RESTATED AT BYTE LEVEL: read_bytes(write_bytes b) = strip b and the public graph is equal through sugar.read (C14_bytes_roundtrip). '
+              'RESTATED AT BYTE LEVEL: read_bytes(write_bytes b) = strip b and the public graph is equal through sugar.read (C14_bytes_roundtrip); the sniffer accepts the written bytes (C14_written_bytes_detected: the former text-head assumption is now a theorem about the printer). '
               'Values json.dump accepts although they are not JSON (tuples, dict keys that are int/float/bool/None): loads(dumps v) = v exactly for the '
               'values without tuples whose keys are all str (C14_native_roundtrip_iff), a non-str key always comes back as a different (str) key and '
               'distinct keys collide (C14_nonstr_keys_outside) -- so they are OUTSIDE the domain. The printer is compared byte for byte with the text '
@@ -98,14 +98,14 @@ LEVEL_TEXT = ('Machine-checked Coq theorems over all object graphs of the domain
               'are closed under _reverse (involutions) and under MISS_LEFT/MISS_RIGHT marking (C14_flags_closed); every modelled public operation -- '
               'Feature.rc, FeatureList.rc, assignment to Feature.locs, item assignment on sequence and basket metadata with its dict -> Attr conversion -- '
               'keeps a basket inside the domain (C14_preop_keeps_domain), so after ANY number of them in ANY order write -> read returns the basket as it '
-              'is at the moment of writing (C14_prehistory_roundtrip, induction over the history); tied by the pre-history stream and the exhaustive '
+              'is at the moment of writing (C14_prehistory_roundtrip, induction over the history); operations that only rearrange, drop or repeat sequences or features keep the domain too (C14_rearrangement_keeps_domain); tied by the pre-history stream (bytes, graph at the moment of writing, read-back, IndexError/ValueError of operations that cannot be carried out) and the exhaustive '
               'flag stream.')
 LEVEL_NOTE = ('Trusted: Coq kernel/vm_compute, tools/gen_data.py + tools/gens/c14.py (constants), the correspondence harness, CPython json/kwargs/enum. '
               'Modelled rather than verified: sjson.py, the constructors listed in trusted_base and CPython json (encoder/scanner, model/C14_Text.v; the '
-              'digits of a float literal are decided by CPython and opaque, code points beyond Latin-1 are outside the model str). Tested only (not proved): '
+              'digits of a float literal are decided by CPython and opaque, code points beyond Latin-1 are outside the model str). Not rebuilt from the lost round-6 list: BioSeq.rc/BioBasket.rc with update_fts, FeatureList.slice and sequence slicing as modelled operations (their flag arithmetic is covered by C14_flags_closed, their LocationTuple step by C14_locationtuple_ordered_any). The byte comparison accepts a text that differs ONLY in the order of the entries of its objects (counted in the evidence: written_text_vs_gallina_printer; today all texts are byte-equal). Tested only (not proved): writes whose format comes from a multi-suffix file name (24 names x 4 entry points incl. BioSeq.write and pathlib.Path; names that are SJSON only up to case may be refused), '
               'the transports/encodings (strings beyond Latin-1 incl. astral characters and lone surrogates are exercised through every transport by a '
               'relational check without the model), float repr round trip, state independence (histories). Domain restrictions (see assumptions): '
-              "F20 key names; '_cls' inside plain dicts; lower-case residues. Fixed findings: F21, reserved_meta_keys (056e094). PENDING FIX "
+              "F20 key names; '_cls' inside plain dicts; lower-case residues, several strands in one feature and location tuples out of order (each now PROVED to be necessary, see the border theorems); tuples and non-str dict keys (proved to come back changed). Fixed findings: F21, reserved_meta_keys (056e094). PENDING FIX "
               "failed_write_state (outside the quantifier, recorded in the evidence as pending_failed_write_state): after a write that failed because "
               "the metadata was not JSON-representable, '_fmtcomment' stays in the basket's __dict__ and every later SJSON write raises TypeError. "
               'Statement coverage of the modelled functions (anchored_source_statement_coverage): everything reachable is executed in the quick tier; '
@@ -226,6 +226,8 @@ def model_term(case):
         assert case.get('via', 'file') in VIAS
         if case.get('kind') == 'border':
             return 'out (run_C14_border %s)' % term(case['b'])
+        if case.get('notext'):
+            return 'out (run_C14 %s)' % term(case['b'])
         return 'out (run_C14_text %s)' % term(case['b'])          # [domain; written bytes; what reading them gives]
     except Exception:                       # malformed candidate produced by the generic shrinker
         return 'out (VL [VB false; VE (bs "Malformed"%bs)])'
@@ -464,6 +466,10 @@ def impl(case):
     d = _diff(snap(b), expected_snapshot(g))
     if d is not None:
         raise ConstructedGraphDiffers(d)
+    if case.get('notext'):                                    # three quarters of the exhaustive box: tree level only (time)
+        b2 = roundtrip(b, case.get('via', 'file'))
+        assert _diff(snap(b), expected_snapshot(g)) is None, 'writing changed the object that was written'
+        return snap(b2)
     # the written bytes, compared with the Gallina printer byte for byte: taken from a freshly built object that was never looked at
     # (reading loc.meta creates the empty Meta of a location lazily, and an existing empty Meta is written as an entry of its own)
     text = build(g, assign).tofmtstr('sjson')
@@ -887,7 +893,7 @@ def box_cases():
             locs = sort_locs([l1, l2])
             ft = ['Feature', ['Meta', ['type', 'CDS'], ['name', 'q%d' % d]], locs]
             seq = ['BioSeq', 'ACGTACGTACGTACGTACGTAC', 'nt', ['Meta', ['id', 'box'], ['fts', ['FeatureList', ft]]]]
-            out.append({'kind': 'box', 'b': ['BioBasket', [seq], ['Meta']]})
+            out.append(dict({'kind': 'box', 'b': ['BioBasket', [seq], ['Meta']]}, **({} if d % 4 == 0 else {'notext': True})))
     return out
 
 
@@ -900,7 +906,7 @@ def gen_cases(rng, tier):
     for i in range(nmut):
         opts = {rng.choice(['badkey', 'lower', 'noid', 'mixed', 'unsorted', 'dict_in_attr', 'cls_in_dict', 'badtype']): rng.choice([0.15, 0.5])}
         cases.append({'kind': 'mut', 'via': rng.choice(VIAS), 'b': g_basket(rng, opts, rng.choice([2, 3]))})
-    for i in range(250 if tier != 'thorough' else 1500):
+    for i in range(200 if tier != 'thorough' else 1500):
         # the border of the domain: exactly the clauses one strand / in order / no lower-case residue are violated
         opts = {k: rng.choice([0.3, 0.7]) for k in rng.sample(['lower', 'mixed', 'unsorted'], rng.choice([1, 1, 2]))}
         cases.append({'kind': 'border', 'via': rng.choice(VIAS), 'b': g_basket(rng, opts, rng.choice([1, 2, 3]))})
@@ -908,13 +914,13 @@ def gen_cases(rng, tier):
         cases.append(g_history(rng))
     for i in range(500 if tier != 'thorough' else 3000):
         cases.append(g_json_case(rng))
-    for i in range(350 if tier != 'thorough' else 2500):
+    for i in range(300 if tier != 'thorough' else 2500):
         cases.append(g_loads_case(rng))
-    for i in range(250 if tier != 'thorough' else 1500):
+    for i in range(200 if tier != 'thorough' else 1500):
         cases.append(g_native_case(rng))
     for d in range(256):                                   # Defect._reverse / Strand._reverse: the whole flag set
         cases.append({'kind': 'flags', 'd': d, 's': STRANDS[d % 4]})
-    for i in range(250 if tier != 'thorough' else 1500):
+    for i in range(200 if tier != 'thorough' else 1500):
         cases.append(g_preop_case(rng))
     return cases
 
